@@ -61,6 +61,9 @@ var selectorMap = map[string]repl{
 	"context.AfterFunc":    {"simrt", "ContextAfterFunc"},
 	"context.WithTimeout":  {"simrt", "WithTimeout"},
 	"context.WithDeadline": {"simrt", "WithDeadline"},
+	// a system call: a scheduling point, and its result lands in the caller's
+	// buffer only when it returns (the bytes themselves stay really random)
+	"crypto/rand.Read": {"simrt", "RandRead"},
 }
 
 // Uses that would let real sockets/timers into a run and have no mapping.
@@ -148,6 +151,18 @@ func (r *rewriter) stmtList(list []ast.Stmt) []ast.Stmt {
 	return out
 }
 
+// preemptible prepends a preemption point to a loop or function body: a real
+// goroutine can be descheduled anywhere, the cooperative scheduler only where
+// it is asked; loop heads and function entries give it places inside
+// computations (active in a drawn subset of the runs, see simrt.Preempt).
+func (r *rewriter) preemptible(b *ast.BlockStmt) *ast.BlockStmt {
+	if b == nil {
+		return b
+	}
+	b.List = append([]ast.Stmt{&ast.ExprStmt{X: r.rt("Preempt")}}, b.List...)
+	return b
+}
+
 // stmt rewrites one statement (recursively) and returns its replacement.
 func (r *rewriter) stmt(s ast.Stmt) ast.Stmt {
 	switch n := s.(type) {
@@ -182,7 +197,7 @@ func (r *rewriter) stmt(s ast.Stmt) ast.Stmt {
 		n.Init = r.simple(n.Init)
 		n.Cond = r.expr(n.Cond)
 		n.Post = r.simple(n.Post)
-		n.Body = r.stmt(n.Body).(*ast.BlockStmt)
+		n.Body = r.preemptible(r.stmt(n.Body).(*ast.BlockStmt))
 		return n
 	case *ast.RangeStmt:
 		return r.rangeStmt(n)
@@ -327,7 +342,7 @@ func (r *rewriter) expr(e ast.Expr) ast.Expr {
 	return astutil.Apply(e, func(c *astutil.Cursor) bool {
 		switch n := c.Node().(type) {
 		case *ast.FuncLit:
-			n.Body = r.stmt(n.Body).(*ast.BlockStmt)
+			n.Body = r.preemptible(r.stmt(n.Body).(*ast.BlockStmt))
 			if n.Type != nil {
 				r.fieldTypes(n.Type)
 			}
@@ -440,7 +455,7 @@ func (r *rewriter) goStmt(n *ast.GoStmt) ast.Stmt {
 // ---- range ----
 
 func (r *rewriter) rangeStmt(n *ast.RangeStmt) ast.Stmt {
-	n.Body = r.stmt(n.Body).(*ast.BlockStmt)
+	n.Body = r.preemptible(r.stmt(n.Body).(*ast.BlockStmt))
 	t := r.info.TypeOf(n.X)
 	if t == nil {
 		n.X = r.expr(n.X)
@@ -682,6 +697,9 @@ func (r *rewriter) run() {
 					continue
 				}
 				n.Body = r.stmt(n.Body).(*ast.BlockStmt)
+				if n.Name.Name != "init" {
+					n.Body = r.preemptible(n.Body)
+				}
 			}
 		case *ast.GenDecl:
 			if n.Tok == token.IMPORT {
